@@ -56,7 +56,7 @@ func (bitrot) Runs(tier string) int64 {
 
 func (bitrot) Meta() core.EngineMeta {
 	return core.EngineMeta{
-		Rule:       "Mode sections (2/3 of the runs): a unit of 1..N reference-encoded sections of the six table types on its conformant PID (after a clean PAT, followed by a clean unit on the same PID and traffic on others) is corrupted in its section bytes only: even indices execute EVERY single-bit flip of every section byte of the unit (exhaustive per unit), the others seeded byte substitutions, bursts of up to 32 bits, truncations and extensions. The reference framer classifies each original section as untouched / touched; delivered data on the unit's PID must be a subsequence of the baseline with every touched section absent (unless the bit-serial reference CRC accepts the corrupted section: a collision, counted and never reported), the following unit and all other PIDs must be unchanged. Mode muxed (1/3): Muxer histories with elementary-stream descriptors of all 23 typed kinds (list-valued ones with 0..n items, Length field 0 or arbitrary) and user-defined/unknown ones; every PAT/PMT packet on the recording writer must frame to exactly one section whose section_length bytes follow, with CRC residue 0 under the bit-serial reference CRC and only 0xFF after it; a third of these histories (small units between table emissions) is replayed once per Write call with that call failing once, and the table packets of later successful calls are judged the same way. evaluations = corrupted executions + table packets checked; distinct = (table type, fault kind, field class of the corrupted byte: table_id / length / header / body / CRC, sections per unit) or (descriptor kind set, PMT size class).",
+		Rule:       "Mode sections (2/3 of the runs): a unit of 1..N reference-encoded sections of the six table types on its conformant PID (after a clean PAT, followed by a clean unit on the same PID and traffic on others) is corrupted in its section bytes only: even indices execute EVERY single-bit flip of every section byte of the unit (exhaustive per unit), the others seeded byte substitutions, bursts of up to 32 bits, truncations and extensions. The reference framer classifies each original section as untouched / touched; delivered data on the unit's PID must be a subsequence of the baseline with every touched section absent (unless the bit-serial reference CRC accepts the corrupted section: a collision, counted and never reported), the following unit and all other PIDs must be unchanged. Mode muxed (1/3): Muxer histories with elementary-stream descriptors of all 23 typed kinds (list-valued ones with 0..n items, Length field 0 or arbitrary) and user-defined/unknown ones; every PAT/PMT packet on the recording writer must frame to exactly one section whose section_length bytes follow, with CRC residue 0 under the bit-serial reference CRC and only 0xFF after it; a third of these histories (small units between table emissions) is replayed once per Write call (at most about 300 per history, strided beyond that) with that call failing once, and the table packets of later successful calls are judged the same way. evaluations = corrupted executions + table packets checked; distinct = (table type, fault kind, field class of the corrupted byte: table_id / length / header / body / CRC, sections per unit) or (descriptor kind set, PMT size class).",
 		Real:       []string{"astits.Demuxer", "astits.Muxer (mode muxed)", "everything below them"},
 		Stub:       []string{"refts section encoders, framer and bit-serial CRC-32/MPEG-2", "PacketChannel (corruption of section bytes)", "SimReader / SimWriter (fault-free)"},
 		FaultKinds: []string{"flip", "subst", "burst", "trunc", "extend", "typed-descriptor", "length-zero-descriptor"},
@@ -651,7 +651,10 @@ func rotMuxedFaults(sc *BitrotScenario, out *core.Outcome, total int) {
 		one(sc.FailOne - 1)
 		return
 	}
-	for j := 0; j < total; j++ {
+	// at most about 300 failing positions per history (every one for short histories, a stride
+	// with a history-dependent offset for long ones): the cost of a run stays bounded
+	step := total/300 + 1
+	for j := (len(sc.Ops)*7 + sc.Short*3) % step; j < total; j += step {
 		one(j)
 	}
 }
